@@ -33,10 +33,10 @@ class Isa:
         raise NotImplementedError
 
     def falls(self, ins):
-        return ins[0] in ("o", "p", "jcc", "call", "icall", "lea", "nop", "leaa", "callplt", "push", "pop")
+        return ins[0] in ("o", "p", "jcc", "call", "icall", "lea", "nop", "leaa", "callplt", "push", "pop", "syscall")
 
     def is_cti(self, ins):
-        return ins[0] in ("jmp", "jcc", "call", "ret", "ijmp", "icall", "callplt")
+        return ins[0] in ("jmp", "jcc", "call", "ret", "ijmp", "icall", "callplt", "syscall")
 
     def size(self, ins):
         return len(self.enc(ins)[0])
@@ -69,6 +69,8 @@ class X64(Isa):
             return b"\xff\xd0", None
         if k == "lea":
             return b"\x48\x8d\x05\x00\x00\x00\x00", (3, 4, ins[1])
+        if k == "syscall":
+            return b"\x0f\x05", None
         if k == "push":
             return b"\x53", None  # push %rbx
         if k == "pop":
@@ -89,6 +91,10 @@ class X64(Isa):
 
     def asm(self, ins):
         k = ins[0]
+        if k == "nop":
+            return "nop"
+        if k == "syscall":
+            return "syscall"
         if k == "push":
             return "pushq %rbx" if self.ptr == 8 else "pushl %ebx"
         if k == "pop":
@@ -293,6 +299,8 @@ def decode_x64(isa, data, sym_at):
             out.append(("lea", sym_at(i + 2))); i += 6
         elif c == 0x90:
             out.append(("nop",)); i += 1
+        elif c == 0x0F and data[i + 1] == 0x05:
+            out.append(("syscall",)); i += 2
         elif c == 0x53:
             out.append(("push",)); i += 1
         elif c == 0x5B:
